@@ -233,6 +233,31 @@ Theorem law_holds_on_every_history :
 Proof. exact law_on_every_history. Qed.
 Print Assumptions law_holds_on_every_history.
 
+(* READ FIRST, THEN ASSIGN. A read stores the default value unvalidated (Model.read_attr); what is stored is therefore
+   no licence: an assignment the validator rejects is rejected in EVERY dictionary — in particular one that already holds
+   that very value — and changes nothing. (Seeded C01-v2 skips validation when the assigned object is the stored one.) *)
+Theorem stored_value_is_validated_again :
+  forall E c s n d dflt v, trait_of c n = Some (d, dflt) -> is_undefined v = false -> validate_s E c s d v = Reject ->
+    setattr E c s n v = (s, Raise ETraitError).
+Proof. exact setattr_rejects_whatever_is_stored. Qed.
+Print Assumptions stored_value_is_validated_again.
+
+Theorem read_then_assign_default_is_rejected :
+  forall E c s n d dflt, trait_of c n = Some (d, dflt) -> is_undefined dflt = false ->
+    validate_s E c (read_attr c s n) d dflt = Reject ->
+    get (read_attr c s n) n <> None /\ setattr E c (read_attr c s n) n dflt = (read_attr c s n, Raise ETraitError).
+Proof. exact read_then_assign_default_rejected. Qed.
+Print Assumptions read_then_assign_default_is_rejected.
+
+(* the law holds on every history that starts after reads of attributes without post_setattr whose default lies in
+   the domain (read_ok); for a default OUTSIDE the domain the two theorems above are the statement *)
+Theorem law_holds_after_reads :
+  forall E c pre ops i, class_ok E c = true -> post_safe c = true -> keys_unique c ->
+    Forall (read_ok E c) pre -> Forall (op_ok c) ops ->
+    law_hist E c i (pre_state c pre) (model_hist E c (pre_state c pre) ops) = [].
+Proof. exact law_after_reads. Qed.
+Print Assumptions law_holds_after_reads.
+
 Theorem fresh_instance_shadows_consistent : forall c, ShInv c [].
 Proof. exact shinv_empty. Qed.
 Print Assumptions fresh_instance_shadows_consistent.
@@ -328,3 +353,18 @@ Example mapped_compound_nonvacuous :
   = [(Ok, Some (PStr [97]), Some (PInt 1)); (Ok, Some (PInt 5), Some (PInt 5));
      (Raise ETraitError, Some (PInt 5), Some (PInt 5)); (Ok, Some (PStr [98]), Some (PStr [98]))].
 Proof. vm_compute. repeat split. Qed.
+
+(* car.engine (read: stores None) ; car.engine = None -> TraitError, nothing changes ; car.engine = Engine() -> stored *)
+Example read_first_nonvacuous :
+  let c := [(0, (DInstance 100 false false, PNone)); (1, (DInt, PInt 0)); (2, (DString 2 4 None, PStr []))] in
+  let s := pre_state c [2; 0] in
+  get s 0 = Some PNone /\ get s 2 = Some (PStr []) /\ get s 1 = None /\
+  law_pre c [2; 0] s = [] /\ law_pre c [2; 0] [] <> [] /\
+  setattr E0 c s 0 PNone = (s, Raise ETraitError) /\ setattr E0 c s 2 (PStr []) = (s, Raise ETraitError) /\
+  snd (setattr E0 c s 0 (PObj 100 1)) = Ok /\
+  Forall (read_ok E0 c) [1] /\ ~ read_ok E0 c 0.
+Proof.
+  cbv zeta. repeat split; try (vm_compute; reflexivity); try (vm_compute; discriminate).
+  - constructor; [|constructor]. intros d dflt H. vm_compute in H. inversion H; subst. split; reflexivity.
+  - intros H. destruct (H _ _ eq_refl) as [_ Hd]. vm_compute in Hd. discriminate.
+Qed.
